@@ -108,6 +108,13 @@ def _gen_items(r, family, k, nmax):
                 items.append(left)
         r.shuffle(items)
         return items[:max(nmax, 1)] if r.random() < 0.8 else items[:max(nmax, 1)] + [r.randint(1, 3)]
+    if family == "bigclose":  # large values that differ by a few units: sums far above 10^5 whose differences are tiny
+        #                       relative to their size (a comparison with a float tolerance takes them for equal)
+        n = r.randint(min(3, nmax), nmax)
+        B = r.choice([10 ** 5, 3 * 10 ** 5, 10 ** 6, 2 ** 31, 10 ** 9 + 7, 2 ** 40])
+        items = [B + r.randint(-3, 3) for _ in range(max(2, n // 2))] + [r.randint(0, 4) for _ in range(n - max(2, n // 2))]
+        r.shuffle(items)
+        return items
     if family == "pow":      # powers of two and near-powers: unique optimum, LPT often wrong
         n = r.randint(min(4, nmax), nmax)
         return [max(0, 2 ** r.randint(0, 10) + r.choice([-1, 0, 0, 1])) for _ in range(n)]
@@ -129,7 +136,7 @@ def gen_plan(seed, tier):
     cfg = _tier(tier)
     r = core.rng(seed, "c11-swarm")
     algo = r.choices(["cg", "cbldm", "ckkgen"], weights=[62, 24, 14])[0]
-    family = r.choice(["narrow", "narrow", "narrow", "lptworst", "equal", "zeros", "zeros", "wide", "small", "small", "tiny", "pow", "perfect", "perfect"])
+    family = r.choice(["narrow", "narrow", "narrow", "lptworst", "equal", "zeros", "zeros", "wide", "small", "small", "tiny", "pow", "perfect", "perfect", "bigclose"])
     plan = {"prop": "C11", "algo": algo, "family": family}
     if algo == "cg":
         k = r.choices([1, 2, 3, 4, 5], weights=[10, 34, 34, 14, 8])[0]
